@@ -12,7 +12,6 @@ Local Open Scope Z_scope.
 Definition fcode (f : option finding) : Z :=
   match f with
   | None => 0
-  | Some F_uidsearch_shape => 14
   | Some F_noop_notices => 17
   end.
 
@@ -51,7 +50,7 @@ Definition case_search (s : str) (n : Z) (got : list Z) (ast : option seqset) : 
        (ast_print_ok ast s) None.
 Definition case_uidsearch (s : str) (uids got : list Z) (ast : option seqset) : Z :=
   pack (zlist_eqb (uidsearch_set s uids) got) (with_ast ast true (fun a => uidsearch_ok a uids got))
-       (ast_print_ok ast s) (with_ast ast None classify_uidsearch).
+       (ast_print_ok ast s) None.
 Definition case_uidfetch (s : str) (uids : list Z) (got : list (Z * Z)) (ast : option seqset) : Z :=
   pack (zpairs_eqb (uid_fetch_rows s uids) got)
        (with_ast ast true (fun a => pairs_set_eqb got (map (fun u => (rank_of uids u, u)) (addressed_uids a uids))))
@@ -139,7 +138,7 @@ Fixpoint notes_eqb (a b : list note) : bool :=
   end.
 
 Definition sfcode (f : option sfinding) : Z :=
-  match f with None => 0 | Some SF_check_swallows => 1 | Some SF_junk_move_count => 2 | Some SF_expunge_unannounced => 3 end.
+  match f with None => 0 | Some SF_expunge_unannounced => 3 end.
 
 Record sacc := { a_last : Z; a_cnt : option Z; a_view : list Z; a_model : bool; a_count : bool; a_list : bool;
                  a_cls : option sfinding; a_noop : bool }.
